@@ -130,6 +130,7 @@ Definition pc_ok (c : dcfg) (p : tpc) : Prop :=
   | TDone (XTimeout a) dl i0 tr at_ =>
       dl <= at_ /\ exists k, k < nad c /\ a = addr_of c i0 k /\ (tr = rot c i0 k \/ tr = rot c i0 (k + 1))
   | TDone (XOk a) dl i0 tr at_ => exists k, k < nad c /\ a = addr_of c i0 k /\ tr = rot c i0 (k + 1)
+  | TDone XResolveErr dl i0 tr at_ => tr = []
   | _ => True
   end.
 
@@ -234,6 +235,7 @@ Proof.
   - destruct P as (k & Hk & _ & E). exists (k + 1). split; [lia|exact E].
   - destruct P as (_ & k & Hk & _ & [E|E]); [exists k|exists (k + 1)]; split; auto; lia.
   - destruct P as (E & _). exists (nad c). split; [lia|exact E].
+  - exists 0. split; [lia|]. rewrite P. reflexivity.
 Qed.
 
 (* ErrDialTimeout is never reported before the deadline, and names an address of the rotation *)
@@ -319,4 +321,14 @@ Proof.
   rewrite (nth_indep _ 0 (addr_of c i0 (N.of_nat 0))) by (rewrite map_length, seq_length; lia).
   rewrite (map_nth (fun j0 : nat => addr_of c i0 (N.of_nat j0))), seq_nth by lia.
   cbn [Nat.add]. rewrite N2Nat.id. rewrite addr_nowrap by lia. apply N.add_mod_idemp_l. lia.
+Qed.
+
+(* a dial whose Resolver is still running when the deadline passes returns at once — with the resolver's (context) error,
+   which is NOT ErrDialTimeout and carries no upstream address: no address has been chosen yet *)
+Lemma resolve_deadline c s t dl : tp s t = TDraw dl -> dl <= clock s ->
+  exists s', dstep c s (LResolveDeadline t) = Some s' /\ tp s' t = TDone XResolveErr dl 0 [] (clock s) /\
+             aidx s' = aidx s /\ sem s' = sem s /\ clock s' = clock s.
+Proof.
+  intros E Hd. assert (Hb : (dl <=? clock s) = true) by (apply N.leb_le; exact Hd).
+  eexists. cbn. rewrite E, Hb. split; [reflexivity|]. cbn. rewrite upd_same. repeat split; reflexivity.
 Qed.
